@@ -87,7 +87,53 @@ pub struct Module {
     pub exports: Vec<(String, u32)>,
 }
 
-pub fn leb_u(out: &mut Vec<u8>, mut v: u64) {
+thread_local! {
+    /// (index of the LEB128 to pad counting from 0, number of padding bytes); used by the
+    /// LEB-level mutator to produce non-minimal but structurally consistent encodings.
+    pub static LEB_PAD: std::cell::Cell<Option<(usize, usize)>> = const { std::cell::Cell::new(None) };
+    pub static LEB_COUNT: std::cell::Cell<usize> = const { std::cell::Cell::new(0) };
+}
+
+fn pad_now() -> usize {
+    let k = LEB_COUNT.with(|c| {
+        let k = c.get();
+        c.set(k + 1);
+        k
+    });
+    match LEB_PAD.with(|p| p.get()) {
+        Some((i, n)) if i == k => n,
+        _ => 0,
+    }
+}
+
+pub fn leb_u(out: &mut Vec<u8>, v: u64) {
+    let pad = pad_now();
+    leb_u_raw(out, v);
+    if pad > 0 {
+        let l = out.len();
+        out[l - 1] |= 0x80;
+        for _ in 0..pad - 1 {
+            out.push(0x80);
+        }
+        out.push(0x00);
+    }
+}
+
+pub fn leb_s(out: &mut Vec<u8>, v: i64) {
+    let pad = pad_now();
+    leb_s_raw(out, v);
+    if pad > 0 {
+        let fill = if v < 0 { 0x7f } else { 0x00 };
+        let l = out.len();
+        out[l - 1] |= 0x80;
+        for _ in 0..pad - 1 {
+            out.push(fill | 0x80);
+        }
+        out.push(fill);
+    }
+}
+
+pub fn leb_u_raw(out: &mut Vec<u8>, mut v: u64) {
     loop {
         let b = (v & 0x7f) as u8;
         v >>= 7;
@@ -99,7 +145,7 @@ pub fn leb_u(out: &mut Vec<u8>, mut v: u64) {
         }
     }
 }
-pub fn leb_s(out: &mut Vec<u8>, mut v: i64) {
+pub fn leb_s_raw(out: &mut Vec<u8>, mut v: i64) {
     loop {
         let b = (v & 0x7f) as u8;
         v >>= 7;
@@ -223,7 +269,22 @@ fn section(out: &mut Vec<u8>, id: u8, body: Vec<u8>) {
     out.extend(body);
 }
 impl Module {
+    /// Encode with the `which`-th LEB128 padded by `pad` bytes; returns the bytes and the
+    /// total number of LEB128 values in the encoding.
+    pub fn encode_padded(&self, which: usize, pad: usize) -> (Vec<u8>, usize) {
+        LEB_COUNT.with(|c| c.set(0));
+        LEB_PAD.with(|p| p.set(Some((which, pad))));
+        let b = self.encode_inner();
+        LEB_PAD.with(|p| p.set(None));
+        (b, LEB_COUNT.with(|c| c.get()))
+    }
+
     pub fn encode(&self) -> Vec<u8> {
+        LEB_PAD.with(|p| p.set(None));
+        self.encode_inner()
+    }
+
+    fn encode_inner(&self) -> Vec<u8> {
         let mut out = vec![0x00, 0x61, 0x73, 0x6d, 1, 0, 0, 0];
         if !self.types.is_empty() {
             let mut b = vec![];
